@@ -63,9 +63,11 @@ mutual
   def VE.refs : VE → List Nat
     | .atom _ => []
     | .fresh => []
+    | .freshTuple _ => []
     | .mkRef _ => []
     | .ref id => [id]
     | .node _ _ _ _ items => refsItems items
+    | .typedList items => refsItems items
   def refsItems : List (Key × VE) → List Nat
     | [] => []
     | (_, v) :: r => v.refs ++ refsItems r
